@@ -11,6 +11,71 @@ import (
 	"golang.org/x/tools/go/ssa"
 )
 
+// Ghost workers. A goroutine that is started with `go x.Run(...)` but not run
+// (nospawn: its later effect is what the harness's next symbolic event stands
+// for) still has to honour the shutdown contract every worker of this
+// repository follows: Close() does close(x.closeC); <-x.doneC. The ghost closes
+// x.doneC as soon as x.closeC is closed, so the real teardown code runs
+// unmodified (double Close still panics). Nested workers reachable through
+// pointer fields (Peer -> Conn) get ghosts too.
+type ghost struct {
+	closeC, doneC *ChanObj
+}
+
+func (e *Engine) makeGhost(recv Value, t types.Type, depth int) {
+	p, ok := recv.(*Pointer)
+	if !ok || p.IsNil() || depth > 2 {
+		return
+	}
+	pt, ok := t.Underlying().(*types.Pointer)
+	if !ok {
+		return
+	}
+	st, ok := pt.Elem().Underlying().(*types.Struct)
+	if !ok {
+		return
+	}
+	sv, ok := e.load(p).(*Struct)
+	if !ok {
+		return
+	}
+	var cc, dc *ChanObj
+	for k := 0; k < st.NumFields(); k++ {
+		f := st.Field(k)
+		switch f.Name() {
+		case "closeC", "stopC":
+			if c, ok := sv.F[k].(*ChanObj); ok && c != nil && cc == nil {
+				cc = c
+			}
+		case "doneC":
+			if c, ok := sv.F[k].(*ChanObj); ok && c != nil {
+				dc = c
+			}
+		}
+		if _, isPtr := f.Type().Underlying().(*types.Pointer); isPtr {
+			e.makeGhost(sv.F[k], f.Type(), depth+1)
+		}
+	}
+	if cc != nil && dc != nil {
+		for _, g := range e.ghosts {
+			if g.doneC == dc {
+				return
+			}
+		}
+		e.ghosts = append(e.ghosts, &ghost{cc, dc})
+		e.StubsUsed["ghost worker: an unspawned goroutine closes doneC once its closeC is closed"]++
+	}
+}
+
+// runGhosts lets ghost workers react to closed close-channels.
+func (e *Engine) runGhosts() {
+	for _, g := range e.ghosts {
+		if g.closeC.Closed && !g.doneC.Closed {
+			g.doneC.Closed = true
+		}
+	}
+}
+
 func (e *Engine) chanClose(c *ChanObj) {
 	if c == nil {
 		e.goPanic("close of nil channel")
@@ -19,6 +84,7 @@ func (e *Engine) chanClose(c *ChanObj) {
 		e.goPanic("close of closed channel")
 	}
 	c.Closed = true
+	e.runGhosts()
 }
 
 // canRecv reports whether a receive on c can complete now.
